@@ -3,7 +3,9 @@ package props
 import (
 	"bytes"
 	"encoding/binary"
+	"errors"
 	"fmt"
+	"math/rand"
 
 	"github.com/pion/interceptor"
 	"github.com/pion/interceptor/pkg/flexfec"
@@ -21,6 +23,7 @@ type c14Cfg struct {
 	Streams  int      `json:"streams"`
 	BaseSeq  []uint16 `json:"base_seq"`
 	Reuse    bool     `json:"reuse"` // callers reuse and scribble their buffers after each Write
+	WErrP    int      `json:"werr_permille,omitempty"` // interceptor path: the next writer fails this often (after it has seen the packet)
 }
 
 type c14Op struct {
@@ -91,6 +94,9 @@ func (c14) Gen(seed int64, tier string, avoid []string) *Plan {
 				l = 1460
 			}
 			ops = append(ops, c14Op{S: r.Intn(cfg.Streams), HS: r.Int63(), Len: l, Pad: pick(r, 0, 0, 0, 1, 2), AtUs: at})
+		}
+		if chance(r, 300) {
+			cfg.WErrP = pick(r, 20, 100, 300)
 		}
 	}
 	p.Cfg = mustJSON(cfg)
@@ -389,11 +395,25 @@ func (c14) Run(e *Env) {
 		info := streamInfo(ssrc, 96, 90000)
 		info.SSRCForwardErrorCorrection, info.PayloadTypeForwardErrorCorrection = fecSSRC, fecPT
 		var out []rec // everything that reached the next writer for this stream, in order
+		failed := false // the next writer failed during the current Write
+		wrand := rand.New(rand.NewSource(e.Plan.Seed ^ int64(s+1)*0x66656321))
 		w := ic.BindLocalStream(info, interceptor.RTPWriterFunc(func(h *rtp.Header, pl []byte, _ interceptor.Attributes) (int, error) {
 			simrt.Yield("downstream")
 			out = append(out, rec{h.Clone(), append([]byte{}, pl...)})
+			if cfg.WErrP > 0 && wrand.Intn(1000) < cfg.WErrP {
+				// a transport hiccup on one packet: the rest of the batch and its repair packets are still due
+				e.Fault("writer_err")
+				failed = true
+				return 0, errInjected
+			}
 			return len(pl), nil
 		}))
+		wrote := func(err error) {
+			if failed != (err != nil) || (err != nil && !errors.Is(err, errInjected)) {
+				e.Violatef("oracle", "c14:write-error", "Write returned %v; the next writer failed during the call: %v", err, failed)
+			}
+			failed = false
+		}
 		var sops []c14Op
 		for _, o := range ops {
 			if !o.Batch && o.S == s {
@@ -413,9 +433,8 @@ func (c14) Run(e *Env) {
 				if cfg.Reuse {
 					*h = pkt.Header.Clone()
 					buf = append(buf[:0], pkt.Payload...)
-					if _, err := w.Write(h, buf, interceptor.Attributes{}); err != nil {
-						e.Violatef("oracle", "c14:write-error", "%v", err)
-					}
+					_, err := w.Write(h, buf, interceptor.Attributes{})
+					wrote(err)
 					for i := range buf {
 						buf[i] ^= 0x77
 					}
@@ -429,8 +448,9 @@ func (c14) Run(e *Env) {
 						}
 					}
 					h.Timestamp ^= 0xABCD
-				} else if _, err := w.Write(&pkt.Header, pkt.Payload, interceptor.Attributes{}); err != nil {
-					e.Violatef("oracle", "c14:write-error", "%v", err)
+				} else {
+					_, err := w.Write(&pkt.Header, pkt.Payload, interceptor.Attributes{})
+					wrote(err)
 				}
 			}
 			// evaluate this stream's output: media first and unmodified, then the batch's repair packets
